@@ -4419,3 +4419,23 @@ M('C02', 'hash2-negative-slice-degenerates', PGP, "        sig._signature.hash2 
 M('C02', 'key-hashdata-negative-slice-degenerates', PGP, "        return self._uid.__bytearray__()[len(self._uid.header):]", "        body = self._uid.__bytearray__()\n        return body[-(len(body) - len(self._uid.header)):]", 'C02.1b')
 T('C05', 'twin-parse-split-into-two-helpers', FL, "    def parse(self, packet):\n        hl = self.bytes_to_int(packet[:2])\n        hashed_raw = packet[:2 + hl]", "    def parse(self, packet):\n        self._parse_hashed(packet)\n        self._parse_unhashed(packet)\n\n    def _parse_hashed(self, packet):\n        hl = self.bytes_to_int(packet[:2])\n        hashed_raw = packet[:2 + hl]",
   more=[(FL, "        self._hashed_raw = hashed_raw\n\n        uhl = self.bytes_to_int(packet[:2])", "        self._hashed_raw = hashed_raw\n\n    def _parse_unhashed(self, packet):\n        uhl = self.bytes_to_int(packet[:2])")])
+
+# =============================================================================================== C18.10 (wave-3 seeded shapes) and further kinds
+T('C18', 'twin-ecpoint-width-negated-floor', FL, "        ct.bytelen = (bitlen + 7) // 8", "        ct.bytelen = -(-bitlen // 8)")
+T('C18', 'twin-mpi-width-shift', TYP, "        return ((self.bit_length() + 7) // 8)", "        nbits = self.bit_length()\n        return (nbits + 7) >> 3")
+T('C18', 'twin-ecpoint-writer-temporaries', FL, "            b += MPIs.int_to_bytes(self.x, self.bytelen)\n            b += MPIs.int_to_bytes(self.y, self.bytelen)", "            width = self.bytelen\n            for coordinate in (self.x, self.y):\n                b += MPIs.int_to_bytes(coordinate, width)")
+T('C18', 'twin-own-point-curve-temp-keyword', FL, "        self.p = ECPoint.from_values(self.oid.key_size, ECPointFormat.Standard, MPI(pubn.x), MPI(pubn.y))", "        curve = self.oid\n        point = ECPoint.from_values(bitlen=curve.key_size, pform=ECPointFormat.Standard, x=MPI(pubn.x), y=MPI(pubn.y))\n        self.p = point")
+M('C18', 'ecpoint-width-floor', FL, "        ct.bytelen = (bitlen + 7) // 8", "        ct.bytelen = bitlen // 8", 'C18.10')
+M('C18', 'ecpoint-width-floor-plus-one', FL, "        ct.bytelen = (bitlen + 7) // 8", "        ct.bytelen = bitlen // 8 + 1", 'C18.10')
+M('C18', 'mpi-width-floor-plus-one', TYP, "        return ((self.bit_length() + 7) // 8)", "        return (self.bit_length() // 8) + 1", 'C18.10')
+M('C18', 'ecpoint-length-off-by-one', FL, "            return 2 * self.bytelen + 3", "            return 2 * self.bytelen + 2", 'C18.10')
+M('C18', 'ecpoint-native-length-off-by-one', FL, "            return len(self.x) + 3", "            return len(self.x) + 2", 'C18.10')
+M('C18', 'ecpoint-writer-minimal-width', FL, "            b += MPIs.int_to_bytes(self.x, self.bytelen)\n", "            b += MPIs.int_to_bytes(self.x)\n", 'C18.10')
+M('C18', 'ecpoint-reader-splits-unevenly', FL, "            self.x = MPI(MPIs.bytes_to_int(xy[:self.bytelen]))\n            self.y = MPI(MPIs.bytes_to_int(xy[self.bytelen:]))", "            self.x = MPI(MPIs.bytes_to_int(xy[:self.bytelen - 1]))\n            self.y = MPI(MPIs.bytes_to_int(xy[self.bytelen - 1:]))", 'C18.10')
+M('C18', 'own-point-width-of-p256', FL, "        self.p = ECPoint.from_values(self.oid.key_size, ECPointFormat.Standard, MPI(pubn.x), MPI(pubn.y))", "        self.p = ECPoint.from_values(EllipticCurveOID.NIST_P256.key_size, ECPointFormat.Standard, MPI(pubn.x), MPI(pubn.y))", 'C18.10')
+M('C18', 'own-point-width-from-coordinate', FL, "        self.p = ECPoint.from_values(self.oid.key_size, ECPointFormat.Standard, MPI(pubn.x), MPI(pubn.y))", "        self.p = ECPoint.from_values(pubn.x.bit_length(), ECPointFormat.Standard, MPI(pubn.x), MPI(pubn.y))", 'C18.10')
+M('C18', 'packet-copy-created-relabelled-utc', PK, "        pk.created = self.created\n        pk.pkalg = self.pkalg\n        pk.keymaterial = copy.copy(self.keymaterial)", "        pk.created = self.created.replace(tzinfo=timezone.utc)\n        pk.pkalg = self.pkalg\n        pk.keymaterial = copy.copy(self.keymaterial)", 'C18.8')
+M('C18', 'revoke-issuer-id-of-target-owner', PGP, "            raise TypeError\n\n        sig = PGPSignature.new(sig_type, self.key_algorithm, hash_algo, self.fingerprint.keyid, created=prefs.pop('created', None))",
+  "            raise TypeError\n\n        owner = self\n        if isinstance(target, PGPKey):\n            owner = target if target.is_primary else target.parent\n\n        sig = PGPSignature.new(sig_type, self.key_algorithm, hash_algo, owner.fingerprint.keyid, created=prefs.pop('created', None))", 'C18.7')
+M('C18', 'certify-issuer-algorithm-of-subject', PGP, "        sig = PGPSignature.new(sig_type, self.key_algorithm, hash_algo, self.fingerprint.keyid, created=prefs.pop('created', None))\n\n        # signature options that only make sense in certifications",
+  "        signer_alg = subject.key_algorithm if isinstance(subject, PGPKey) else self.key_algorithm\n        sig = PGPSignature.new(sig_type, signer_alg, hash_algo, self.fingerprint.keyid, created=prefs.pop('created', None))\n\n        # signature options that only make sense in certifications", 'C18.7')
